@@ -529,7 +529,7 @@ def run(ctx):
     graph_generations(ctx, traces)
     cross_package_generations(ctx, traces)
     # names that end up EMPTY after cleaning next to names that are already the safe replacement ("value"): in every run
-    en = "".join(f'<xs:enumeration value="{v}"/>' for v in ["", "value", "VALUE", " ", "_", "Value"])
+    en = "".join(f'<xs:enumeration value="{v}"/>' for v in ["", "value", "VALUE", " ", "_", "Value", "&#9;", "&#10;&#9;"])   # (control characters have no unicode NAME)
     empty_xsd = ('<xs:schema xmlns:xs="http://www.w3.org/2001/XMLSchema" targetNamespace="urn:h" xmlns:t="urn:h" elementFormDefault="qualified">'
                  f'<xs:simpleType name="E"><xs:restriction base="xs:string">{en}</xs:restriction></xs:simpleType>'
                  '<xs:element name="root"><xs:complexType><xs:sequence><xs:element name="value" type="t:E"/><xs:element name="_" type="xs:int" minOccurs="0"/>'
